@@ -15,6 +15,11 @@ pub const RULE: &str = "(three wire formats: serde_json text, serde_json value t
 pub struct Case {
     pub p: Phys,
     pub points: Vec<Vec<f64>>,
+    /// entries appended to signature rows (row index >= 1) before the sampler is built: the signature is not validated
+    /// by build_sampler and sampling reads only the first L entries of a row, so a ragged signature samples like the
+    /// rectangular one - and must keep doing so after a round trip
+    #[serde(default)]
+    pub ragged: Vec<(usize, Vec<isize>)>,
 }
 
 /// a graph with 16 or 17 loops (flower of massive self-loops, optionally with a bridge to a second vertex):
@@ -42,7 +47,7 @@ fn gen_many_loops(t: &mut Tape) -> Option<Case> {
     let point = |t: &mut Tape| -> Vec<f64> { (0..dim).map(|_| t.unit().max(gen::TWO_M53)).collect() };
     let x = point(t);
     let points = (0..3).map(|_| point(t)).collect();
-    Some(Case { p: Phys { g, kin, x, classes: vec!["graph:16+loops".into()] }, points })
+    Some(Case { p: Phys { g, kin, x, classes: vec!["graph:16+loops".into()] }, points, ragged: vec![] })
 }
 
 pub fn gen_case(t: &mut Tape, tier: Tier) -> Option<Case> {
@@ -53,7 +58,15 @@ pub fn gen_case(t: &mut Tape, tier: Tier) -> Option<Case> {
     let opts = PhysOpts { max_e: tier.pick(8, 9), max_l: 8, min_omega: mo, dmax: 6, max_ops: 3, profile: gen::SECTOR };
     let p = if t.chance(0.1) { gen::gen_phys_union(t, &opts)? } else { gen::gen_phys(t, &opts)? };
     let points = (0..12).map(|i| gen::gen_point(t, &p.g, if i % 3 == 0 { &gen::CORNERS } else { &gen::MODERATE }).0).collect();
-    Some(Case { p, points })
+    let mut ragged = vec![];
+    if !t.chance(0.92) && p.g.nedges() >= 2 {
+        for _ in 0..t.range(1, 2) {
+            let e = t.range(1, p.g.nedges() - 1);
+            let extra: Vec<isize> = (0..t.range(1, 2)).map(|_| t.range(0, 2) as isize - 1).collect();
+            ragged.push((e, extra));
+        }
+    }
+    Some(Case { p, points, ragged })
 }
 
 pub fn full_bits(r: &Result<Out, SutErr>) -> Vec<u64> {
@@ -143,7 +156,14 @@ fn compare<const D: usize>(a: &SampleGenerator<D>, b: &SampleGenerator<D>, c: &C
 
 fn check_d<const D: usize>(c: &Case, ctx: &mut Ctx) -> Result<(), Failure> {
     let g = &c.p.g;
-    let s = match sut::build::<D>(g, c.p.kin.sig.clone()) {
+    let mut sig = c.p.kin.sig.clone();
+    for (e, extra) in &c.ragged {
+        if *e >= 1 && *e < sig.len() {
+            sig[*e].extend_from_slice(extra);
+            ctx.label("signature:ragged");
+        }
+    }
+    let s = match sut::build::<D>(g, sig) {
         Ok(s) => s,
         Err(BuildErr::Rejected(_)) | Err(BuildErr::Panic(_)) => {
             ctx.label("skip:not-built");
